@@ -21,7 +21,7 @@ RULE = ("(role, phase, cut class, stall style) enumerated; phases: before RQ/AC,
 ASSUMPTIONS = ["all four timeouts 0.5 s; watchdog 6 s after the stall began (>= 10 x the relevant timeout plus margin)",
                "the peer never closes the TCP connection during the observation window"]
 WORKERS = {"quick": 16, "thorough": 16}
-REQUIRE = {"scenarios": 40, "acceptor_scenarios": 20, "requestor_scenarios": 15, "stall_points_reached": 40, "stream_scenarios": 10}
+REQUIRE = {"scenarios": 40, "acceptor_scenarios": 20, "requestor_scenarios": 15, "stall_points_reached": 40, "stream_scenarios": 10, "skewed_timeout_scenarios": 10}
 VER = "1.2.840.10008.1.1"
 CT = "1.2.840.10008.5.1.4.1.1.2"
 T = 0.5
@@ -31,6 +31,28 @@ WATCHDOG = 6.0
 def setup_worker():
     harness.quiet_logging()
     taps.install()
+
+
+BIG = 4.5          # an unrelated timeout in the skewed variants
+SOFT = 3.0         # ... by when everything must be over there (relevant timeouts: 0.5 s each, at most two of them in a row)
+
+
+def timeouts_for(case):
+    """(acse, dimse, network, connection).  Skewed variants keep only the timeouts that govern the phase at 0.5 s."""
+    if not case.get("skew"):
+        return (T, T, T, T)
+    ph = case["phase"]
+    if case["role"] == "acceptor":
+        if ph in ("before-rq",) or ph.startswith("stream-"):
+            rel = {"acse"}
+        else:
+            rel = {"network", "acse"}          # idle timer, then ARTIM after the A-ABORT
+    else:
+        if ph in ("before-ac", "release-no-rp"):
+            rel = {"acse"}
+        else:
+            rel = {"dimse", "acse"}            # DIMSE timeout, then ARTIM after the A-ABORT
+    return tuple(T if k in rel else BIG for k in ("acse", "dimse", "network", "connection"))
 
 
 ACC_PHASES = ["before-rq", "inside-rq", "idle", "mid-command", "between-command-and-dataset", "mid-dataset-pdu-boundary",
@@ -68,6 +90,10 @@ def gen_cases(tier, seed):
                 if style == "dribble" and c == "-":
                     continue
                 cases.append({"role": "requestor", "phase": ph, "cut": c, "style": style})
+    # skewed variants of the PDU-boundary stalls: only the timeouts that govern the phase are short
+    for c in list(cases):
+        if c["cut"] == "-" and c["style"] in ("silent", "stream"):
+            cases.append(dict(c, skew=True))
     return cases
 
 
@@ -146,7 +172,7 @@ def dataset_bytes(n=3000):
     return el(8, 0x16, CT.encode()) + el(8, 0x18, b"1.2.3.4") + el(0x7FE0, 0x10, bytes(n))
 
 
-def liveness_verdict(viol, role, tag, t_stall, user_thread=None):
+def liveness_verdict(viol, role, tag, t_stall, user_thread=None, skew=False):
     """Wait for the watchdog, then judge threads/sockets of the LOCAL (pynetdicom) side."""
     deadline = t_stall + WATCHDOG
     while time.time() < deadline:
@@ -180,6 +206,10 @@ def liveness_verdict(viol, role, tag, t_stall, user_thread=None):
         else:
             inconclusive = "threads alive after the watchdog but not parked: %r" % parked
     else:
+        if skew and waited > SOFT:
+            viol.append({"key": "ended-only-after-an-unrelated-timeout|%s|%s" % (role, tag),
+                         "detail": "everything ended %.1f s after the peer stalled although the timeouts that govern this phase are %.1f s "
+                                   "(the others are %.1f s)" % (waited, T, BIG)})
         if taps.open_sockets():
             cls = "pdu-boundary" if "|cut--|" in tag else "inside-pdu"
             viol.append({"key": "socket-left-open|%s|%s|%s" % (cls, role, tag), "detail": "threads ended but %d raw socket(s) still open: %r" % (
@@ -208,12 +238,12 @@ def run_acceptor(case, counters):
     taps.reset()
     rng = rng_for(0, PID, case["phase"], case["cut"], case["style"])
     viol = []
-    ae = harness.make_ae(timeouts=(T, T, T, T), supported=[VER, CT])
+    ae = harness.make_ae(timeouts=timeouts_for(case), supported=[VER, CT])
     server, port = harness.start_server(ae, [(evt.EVT_C_STORE, lambda e: 0x0000), (evt.EVT_C_ECHO, lambda e: 0x0000)])
     p = vpeer.Peer.connect(port)
     st = Staller(p, case["style"])
     ph = case["phase"]
-    tag = "%s|%s|%s" % (ph, "cut-" + case["cut"], case["style"])
+    tag = "%s|%s|%s" % (ph, "cut-" + case["cut"], case["style"] + ("+skew" if case.get("skew") else ""))
     try:
         rq = ps38.encode(ps38.make_rq(pcs=[{"id": 1, "abs": VER, "ts": [ps38.IMPLICIT_LE]}, {"id": 3, "abs": CT, "ts": [ps38.IMPLICIT_LE]}], maxlen=1024))
         reached = False
@@ -271,7 +301,7 @@ def run_acceptor(case, counters):
         if reached:
             counters["stall_points_reached"] = counters.get("stall_points_reached", 0) + 1
         harness.wait_for(lambda: bool(harness.acceptor_assocs()), 1.0)
-        waited, inc = liveness_verdict(viol, "acceptor", tag, t_stall)
+        waited, inc = liveness_verdict(viol, "acceptor", tag, t_stall, skew=bool(case.get("skew")))
         _crash_observations(viol)
         obs = {"phase": ph, "waited_s": round(waited, 2), "fsm": [(f["before"], f["event"]) for f in taps.State.fsm][-5:],
                "peer_saw": [x.get("type") for x in p.drain(quiet=0.05, limit=0.3)]}
@@ -288,8 +318,8 @@ def run_requestor(case, counters):
     rng = rng_for(0, PID, case["phase"], case["cut"], case["style"])
     viol = []
     ph = case["phase"]
-    tag = "%s|%s|%s" % (ph, "cut-" + case["cut"], case["style"])
-    ae = harness.make_ae(title="SCU", timeouts=(T, T, T, T), requested=[VER, CT, "1.2.840.10008.5.1.4.1.2.1.1"])
+    tag = "%s|%s|%s" % (ph, "cut-" + case["cut"], case["style"] + ("+skew" if case.get("skew") else ""))
+    ae = harness.make_ae(title="SCU", timeouts=timeouts_for(case), requested=[VER, CT, "1.2.840.10008.5.1.4.1.2.1.1"])
     lst = vpeer.Listener()
     stall_at = {"t": None}
     res = {}
@@ -374,7 +404,7 @@ def run_requestor(case, counters):
         if not ok:
             return [], {"setup": "stall point not reached", "res": res}, "stall point not reached"
         counters["stall_points_reached"] = counters.get("stall_points_reached", 0) + 1
-        waited, inc = liveness_verdict(viol, "requestor", tag, stall_at["t"], user_thread=ut)
+        waited, inc = liveness_verdict(viol, "requestor", tag, stall_at["t"], user_thread=ut, skew=bool(case.get("skew")))
         _crash_observations(viol)
         obs = {"phase": ph, "waited_s": round(waited, 2), "user_result": {k: v for k, v in res.items()},
                "fsm": [(f["before"], f["event"]) for f in taps.State.fsm][-5:]}
@@ -389,5 +419,7 @@ def run_requestor(case, counters):
 def run_case(case):
     counters = {"scenarios": 1, case["role"] + "_scenarios": 1}
     viol, obs, inc = (run_acceptor if case["role"] == "acceptor" else run_requestor)(case, counters)
-    return {"key": sha([case["role"], case["phase"], case["cut"], case["style"]]), "nontrivial": bool(counters.get("stall_points_reached")),
+    if case.get("skew"):
+        counters["skewed_timeout_scenarios"] = 1
+    return {"key": sha([case["role"], case["phase"], case["cut"], case["style"], bool(case.get("skew"))]), "nontrivial": bool(counters.get("stall_points_reached")),
             "sample": {"case": case, "observed": obs}, "violations": viol, "counters": counters, "inconclusive": inc}
